@@ -4,6 +4,7 @@ import (
 	"encoding/binary"
 	"errors"
 	"fmt"
+	"io"
 )
 
 // HeaderHash
@@ -2367,25 +2368,29 @@ func (m *MetaCode) Decode(d *Decoder) error {
 		return err
 	}
 
-	if length == 0 {
-		return nil
+	if length > uint64(d.buf.Len()) {
+		return fmt.Errorf("MetaCode metadata length %d exceeds the %d remaining bytes", length, d.buf.Len())
 	}
 
-	// Decode the Metadata
-	metadata := make([]byte, length)
-	if _, err = d.buf.Read(metadata); err != nil {
-		return err
+	// Decode the Metadata (it may be empty: the code still follows)
+	if length > 0 {
+		metadata := make([]byte, length)
+		if _, err = io.ReadFull(d.buf, metadata); err != nil {
+			return err
+		}
+
+		m.Metadata = ByteSequence(metadata)
 	}
 
-	m.Metadata = ByteSequence(metadata)
+	// Decode the Code (remaining bytes, possibly none)
+	if d.buf.Len() > 0 {
+		code := make([]byte, d.buf.Len())
+		if _, err = io.ReadFull(d.buf, code); err != nil {
+			return err
+		}
 
-	// Decode the Code (remaining bytes)
-	code := make([]byte, d.buf.Len())
-	if _, err = d.buf.Read(code); err != nil {
-		return err
+		m.Code = ByteSequence(code)
 	}
-
-	m.Code = ByteSequence(code)
 
 	return nil
 }
